@@ -519,3 +519,84 @@ pub fn h_c01_formulas_structural_undo() {
     }
     reach("C01.formulas_structural");
 }
+
+// ------------------------------------------------------------------------------------- defined names (C01-C04)
+
+fn names_um() -> Option<UserModel<'static>> {
+    let mut um = user_model_paused(workbook_with_cells(vec![empty_sheet("Sheet1", 1), empty_sheet("Sheet2", 2)]));
+    if um.new_defined_name("Rate", None, "Sheet1!$A$1").is_err() { return None; }
+    Some(um)
+}
+const NAME_CASES: [&str; 3] = ["Rate", "RATE", "rate"];
+/// op: 0 rename + move to a sheet scope, 1 new formula + sheet scope, 2 delete (name given in any case), 3 a second name
+fn name_op(um: &mut UserModel, op: u8, s: u32, c: usize) -> Result<(), String> {
+    if op == 0 { um.update_defined_name(NAME_CASES[c], None, "Tax", Some(s), "Sheet1!$A$1") }
+    else if op == 1 { um.update_defined_name(NAME_CASES[c], None, "Rate", Some(s), "Sheet2!$B$2") }
+    else if op == 2 { um.delete_defined_name(NAME_CASES[c], None) }
+    else { um.new_defined_name("Base", Some(s), "Sheet2!$B$2") }
+}
+fn any_name_op() -> (u8, u32, usize) {
+    let (op, s, c) = (any_u8(), any_u32(), any_usize_to(NAME_CASES.len() - 1));
+    assume((op < 4) & (s < 2));
+    (op, s, c)
+}
+
+pub fn h_c01_defined_names() {
+    let entered = names_um();
+    check("C01.defined_names.entered", entered.is_some());
+    let mut um = match entered { Some(m) => m, None => return };
+    let (op, s, c) = any_name_op();
+    let before = um.model.get_defined_name_list();
+    if name_op(&mut um, op, s, c).is_err() { return; }
+    let after = um.model.get_defined_name_list();
+    check("C01.defined_names.changed", after != before);
+    if um.undo().is_err() { check("C01.defined_names.undo", false); return; }
+    check("C01.defined_names.undo", um.model.get_defined_name_list() == before);
+    if um.redo().is_err() { check("C02.defined_names.redo", false); return; }
+    check("C02.defined_names.redo", um.model.get_defined_name_list() == after);
+    reach("C01.defined_names");
+}
+
+pub fn h_c03_defined_names() {
+    let (a, b) = (names_um(), names_um());
+    check("C03.defined_names.entered", a.is_some() & b.is_some());
+    let (mut primary, mut replica) = match (a, b) { (Some(a), Some(b)) => (a, b), _ => return };
+    // the replica already has the name (same history); drop what it would send
+    let _ = primary.flush_send_queue();
+    let (op, s, c) = any_name_op();
+    if name_op(&mut primary, op, s, c).is_err() { return; }
+    let sched = any_u8();
+    assume(sched < 4);
+    let mut applied_early = true;
+    if sched == 2 { let bytes = primary.flush_send_queue(); applied_early = replica.apply_external_diffs(&bytes).is_ok(); }
+    if sched >= 1 { if primary.undo().is_err() { return; } }
+    if sched == 3 { if primary.redo().is_err() { return; } }
+    let bytes = primary.flush_send_queue();
+    let applied = replica.apply_external_diffs(&bytes).is_ok();
+    check("C03.defined_names.converges", applied_early & applied & (primary.model.get_defined_name_list() == replica.model.get_defined_name_list()));
+    reach("C03.defined_names");
+}
+
+/// failing name operations: a name that does not exist, an invalid new name, a new name that exists already, a scope that
+/// does not exist - and, for contrast, the valid ones (which must not fail half way)
+pub fn h_c04_defined_names() {
+    let entered = names_um();
+    check("C04.defined_names.entered", entered.is_some());
+    let mut um = match entered { Some(m) => m, None => return };
+    let k = any_u8();
+    assume(k < 7);
+    let c = any_usize_to(NAME_CASES.len() - 1);
+    let before = um.model.workbook.clone();
+    let (nu, nr, nq) = (um.history.undo_stack.len(), um.history.redo_stack.len(), um.send_queue.len());
+    let res = if k == 0 { um.delete_defined_name("Nope", None) }
+        else if k == 1 { um.delete_defined_name(NAME_CASES[c], Some(0)) }
+        else if k == 2 { um.update_defined_name(NAME_CASES[c], None, "1A", None, "Sheet1!$A$1") }
+        else if k == 3 { um.new_defined_name(NAME_CASES[c], None, "Sheet2!$B$2") }
+        else if k == 4 { um.new_defined_name("Base", Some(7), "Sheet2!$B$2") }
+        else if k == 5 { um.delete_defined_name(NAME_CASES[c], None) }
+        else { um.update_defined_name(NAME_CASES[c], None, "Tax", Some(7), "Sheet1!$A$1") };
+    if res.is_err() {
+        check("C04.defined_names.unchanged", (um.model.workbook == before) & (um.history.undo_stack.len() == nu) & (um.history.redo_stack.len() == nr) & (um.send_queue.len() == nq));
+    }
+    reach("C04.defined_names");
+}
